@@ -210,8 +210,9 @@ fn run_one(cfg: &Cfg19, choose: &mut dyn FnMut(usize, &[usize]) -> usize) -> Exe
         }));
     }
     let mut after = |_: usize, _: &[Ev]| {};
-    let outcome = run_execution(bodies, parks, None, &enabled, choose, &mut after, Duration::from_secs(30));
-    let fin = eng.get_snapshot_for(KG).map(|s| facts_of_snapshot(&s)).unwrap_or_default();
+    let outcome = run_execution(bodies, parks, None, &enabled, choose, &mut after, Duration::from_secs(12));
+    // a hung thread may hold the KG write lock for ever: do not touch the engine then
+    let fin = if outcome.hung.is_empty() { eng.get_snapshot_for(KG).map(|s| facts_of_snapshot(&s)).unwrap_or_default() } else { vec![] };
     let results: Vec<Vec<(u64, Res)>> = results.iter().map(|r| r.lock().unwrap().clone()).collect();
     let reads = reads.lock().unwrap().clone();
     Exec { outcome, results, reads, fin }
@@ -248,6 +249,10 @@ fn emit(cfg: &Cfg19, ex: &Exec, fx: bool) -> CaseOut {
         format!("threads:{}", cfg.progs.len()),
         if cfg.progs.len() == 1 { "sequential".into() } else if cfg.exhaustive { "enumerated".to_string() } else { "sampled".to_string() },
     ];
+    let hung_note: Vec<String> = ex.outcome.hung.iter().map(|t| format!("thread {t} never returned from its operation")).collect();
+    if !hung_note.is_empty() {
+        tags.push("thread-hung".into());
+    }
     let errs: Vec<String> = ex
         .results
         .iter()
@@ -280,12 +285,16 @@ fn emit(cfg: &Cfg19, ex: &Exec, fx: bool) -> CaseOut {
         "reads": ex.reads.iter().map(|r| format!("#{} r{} ok={} read={:?} snapshot={:?}", r.id, r.rel, r.ok, r.xs, r.snap)).collect::<Vec<_>>(),
         "final_snapshot": format!("{:?}", ex.fin),
         "errors": errs,
+        "hung": hung_note,
         "panics": format!("{:?}", ex.outcome.panics),
     });
     let nreads = ex.reads.iter().filter(|r| r.ok && !r.xs.is_empty()).count();
     let switches = ex.outcome.schedule.windows(2).filter(|w| w[0] != w[1]).count();
     let key = if nreads > 0 && (cfg.progs.len() == 1 || switches >= 2) { Some(format!("{:?}|{}", cfg.progs, sched_txt.join(","))) } else { None };
-    CaseOut { coq, desc, tags, key, infeasible: ex.outcome.infeasible }
+    // an execution that was abandoned because a thread is blocked forever inside the code under test is
+    // a failure of the operation (it never returns): keep it as a case; the schedule then ends with the
+    // label "blocked" which no model step produces
+    CaseOut { coq, desc, tags, key, infeasible: ex.outcome.infeasible && ex.outcome.hung.is_empty() }
 }
 
 fn interleavings(progs: &[Vec<Op>]) -> f64 {
